@@ -88,6 +88,7 @@ def selftest():
 # scene generation per class
 # ----------------------------------------------------------------------
 KINDS = {
+    'localbkg': gen.ALL_KINDS + ('edge', 'edge'),
     'touching': ('split', 'split', 'blob', 'walk', 'rect'),
     'nested': ('donut', 'donut', 'blob'),
     'single_pixel': ('single', 'single', 'line', 'blob'),
@@ -206,9 +207,10 @@ def build_scene(rng, cls, nmax=8):
         sc.unit = [u.Jy, u.electron / u.s, u.adu, u.erg / u.s / u.cm ** 2 / u.AA][int(rng.integers(0, 4))]
     if cls == 'wcs' or rng.random() < 0.15:
         sc.wcs = gen.simple_wcs(rng, sc.shape)
-    if cls == 'localbkg' or rng.random() < 0.15:
+    if cls == 'localbkg' or rng.random() < 0.15 or (cls == 'edge' and rng.random() < 0.35):
         sc.localbkg_width = int(rng.choice([1, 2, 4, 8, 15]))
     apply_generic_axes(rng, sc, cls)
+    apply_generic_axes2(rng, sc, cls)
     return sc
 
 
@@ -270,6 +272,156 @@ def apply_generic_axes(rng, sc, cls):
         sc.axes.append('callform_kron_params')
 
 
+INT_RANGES = {'uint8': (0, 255), 'int8': (-128, 127), 'uint16': (0, 65535), 'int16': (-32768, 32767),
+              'uint32': (0, 2 ** 32 - 1), 'int32': (-2 ** 31, 2 ** 31 - 1), 'uint64': (0, 2 ** 62),
+              'int64_beyond_2**31': (2 ** 31 + 5, 2 ** 33), 'int64_beyond_2**53': (2 ** 53 + 1, 2 ** 53 + 2 ** 20)}
+
+
+def _to_int_dtype(a, name, positive=False):
+    """Integer-valued version of a finite float array filling the range of the dtype (values near both limits)."""
+    lo, hi = INT_RANGES[name]
+    if positive:
+        lo = max(lo, 1)
+    amin, amax = float(np.min(a)), float(np.max(a))
+    span = (amax - amin) or 1.0
+    v = np.round((a - amin) / span * float(hi - lo))
+    dt = np.dtype(name.split('_')[0])
+    out = (v.astype(np.uint64 if dt.kind == 'u' else np.int64) + (lo if dt.kind == 'u' else 0)).astype(dt) \
+        if dt.kind == 'u' else (v.astype(np.int64) + lo).astype(dt)
+    return out
+
+
+def apply_generic_axes2(rng, sc, cls):
+    """Second list of class-independent axes: dtype kind of every array, ties / plateaus, one-sided edges
+    (counters), provenance of the SegmentationImage, all-False masks.  About half of the scenes untouched."""
+    labels = [int(x) for x in sc.labels]
+    n = len(labels)
+    finite = bool(np.all(np.isfinite(sc.data.astype(float))))
+    # --- ties for every arg-extremum quantity: plateaus and binary images
+    if sc.data.dtype.kind == 'f' and finite and rng.random() < 0.08:
+        d = sc.data
+        if rng.random() < 0.5:
+            sc.data = (d > np.median(d)).astype(float) * float(np.max(np.abs(d)) or 1.0)
+            sc.axes.append('2_ties_binary_image')
+        else:
+            q = (float(np.max(d)) - float(np.min(d))) / 3.0 or 1.0
+            sc.data = np.round(d / q) * q
+            sc.axes.append('2_ties_plateaus')
+        if sc.conv is not None and sc.info.get('conv_mode') == 'smooth':
+            sc.conv = gen.box_smooth(sc.data)
+    for name in ('data', 'conv'):
+        if sc.layout.get(name) == 'float32' and getattr(sc, name) is not None:
+            setattr(sc, name, getattr(sc, name).astype(np.float32).astype(np.float64))   # keep values representable
+    # --- (vii) dtype kinds
+    if rng.random() < 0.3:
+        if sc.data.dtype.kind == 'f' and finite and rng.random() < 0.6:
+            name = list(INT_RANGES)[int(rng.integers(0, len(INT_RANGES)))]
+            if rng.random() < 0.2 and 1e-4 < float(np.max(np.abs(sc.data))) < 6e4:
+                sc.data = sc.data.astype(np.float16).astype(np.float64)
+                sc.layout['data'] = 'dtype:float16'
+                sc.axes.append('2_dtype_data_float16')
+            else:
+                sc.data = _to_int_dtype(sc.data, name)
+                sc.layout.pop('data', None) if sc.layout.get('data') == 'float32' else None
+                sc.axes.append('2_dtype_data_' + name)
+        if sc.conv is not None and np.all(np.isfinite(sc.conv)) and rng.random() < 0.4:
+            name = ['uint16', 'int16', 'uint8', 'int32'][int(rng.integers(0, 4))]
+            sc.conv = _to_int_dtype(sc.conv, name)
+            if sc.layout.get('conv') == 'float32':
+                sc.layout.pop('conv')
+            sc.axes.append('2_dtype_conv_' + name)
+        if sc.error is not None and np.all(np.isfinite(sc.error)) and rng.random() < 0.6:
+            name = ['float32', 'float16', 'uint16', 'int16', 'uint8'][int(rng.integers(0, 5))]
+            if name.startswith('float'):
+                with np.errstate(all='ignore'):
+                    e = sc.error.astype(name).astype(np.float64)
+                if np.all(np.isfinite(e)) and np.all(e > 0):
+                    sc.error = e
+                    sc.layout['error'] = 'dtype:' + name
+                    sc.axes.append('2_dtype_error_' + name)
+            else:
+                sc.error = _to_int_dtype(sc.error, name, positive=True)
+                sc.axes.append('2_dtype_error_' + name)
+        if sc.background is not None and np.all(np.isfinite(sc.background)) and rng.random() < 0.6:
+            name = ['float32', 'float16', 'uint16', 'int16', 'int32'][int(rng.integers(0, 5))]
+            if name.startswith('float'):
+                with np.errstate(all='ignore'):
+                    b = sc.background.astype(name).astype(np.float64)
+                if np.all(np.isfinite(b)):
+                    sc.background = b
+                    sc.layout['background'] = 'dtype:' + name
+                    sc.axes.append('2_dtype_background_' + name)
+            else:
+                sc.background = _to_int_dtype(sc.background, name)
+                sc.axes.append('2_dtype_background_' + name)
+    # narrow / unsigned label arrays (room is kept for renumbering and temporary labels)
+    limit = None
+    if rng.random() < 0.3:
+        cands = [d for d in ('uint8', 'int8', 'int16', 'uint16', 'uint32', 'uint64')
+                 if max(labels) + 2 * n + 12 <= np.iinfo(d).max]
+        if cands:
+            d = cands[int(rng.integers(0, len(cands)))]
+            sc.layout['seg_dtype'] = d
+            limit = int(np.iinfo(d).max)
+            sc.axes.append('2_dtype_seg_' + d)
+    sc.info['label_limit'] = limit
+    # --- (x) provenance of the SegmentationImage
+    if rng.random() < 0.3:
+        top = (limit or 10 ** 6)
+        unused = [v for v in range(1, min(top, max(labels) + 2 * n + 12) + 1) if v not in labels]
+        kind = ['relabel_consecutive', 'reassign', 'remove', 'keep'][int(rng.integers(0, 4))]
+        prov = {'kind': kind, 'read_before': bool(rng.random() < 0.8), 'read_after': bool(rng.random() < 0.5)}
+        if kind == 'relabel_consecutive':
+            k = int(rng.integers(2, 9))
+            gaps = [int(x) for x in rng.integers(0, 4, size=n)]
+            if (limit is None or k + n + sum(gaps) + 1 <= limit) and sum(gaps) > 0:
+                order = np.argsort(labels)
+                lut = np.zeros(max(labels) + 1, dtype=sc.seg.dtype)
+                for rank, i in enumerate(order):
+                    lut[labels[i]] = k + rank
+                sc.seg = lut[sc.seg]
+                sc.labels = np.arange(k, k + n)
+                prov['gaps'] = gaps
+                sc.provenance['segm'] = prov
+        elif kind == 'reassign':
+            prov['label'] = labels[int(rng.integers(0, n))]
+            prov['tmp'] = int(unused[int(rng.integers(0, len(unused)))])
+            sc.provenance['segm'] = prov
+        else:
+            m = int(rng.integers(1, 4))
+            prov['extra'] = [int(x) for x in rng.choice(unused, size=m, replace=False)]
+            prov['boxes'] = [(int(rng.integers(0, sc.shape[0])), int(rng.integers(0, sc.shape[1])),
+                              int(rng.integers(1, 5)), int(rng.integers(1, 5))) for _ in range(m)]
+            sc.provenance['segm'] = prov
+        if 'segm' in sc.provenance:
+            sc.axes.append('2_provenance_segm_' + kind)
+    # --- (xi) an all-False mask
+    if sc.mask is None and rng.random() < 0.06:
+        sc.mask = np.zeros(sc.shape, dtype=bool)
+        sc.axes.append('2_mask_all_false')
+    # --- (viii) which borders / corners are touched, and on which side a local-background annulus leaves the frame
+    ny, nx = sc.shape
+    seg = sc.seg
+    for nm, sl in (('bottom', seg[0, :]), ('top', seg[-1, :]), ('left', seg[:, 0]), ('right', seg[:, -1])):
+        if sl.any():
+            sc.axes.append('2_touch_' + nm)
+    for nm, v in (('corner_ll', seg[0, 0]), ('corner_lr', seg[0, -1]), ('corner_ul', seg[-1, 0]), ('corner_ur', seg[-1, -1])):
+        if v:
+            sc.axes.append('2_touch_' + nm)
+    if sc.localbkg_width > 0:
+        sides = set()
+        for lab in sc.labels:
+            ys, xs = np.nonzero(seg == lab)
+            h, w = ys.max() - ys.min() + 1, xs.max() - xs.min() + 1
+            yc, xc = 0.5 * (ys.min() + ys.max()), 0.5 * (xs.min() + xs.max())
+            out = {'left': xc - 0.75 * w - sc.localbkg_width < -0.5, 'right': xc + 0.75 * w + sc.localbkg_width > nx - 0.5,
+                   'bottom': yc - 0.75 * h - sc.localbkg_width < -0.5, 'top': yc + 0.75 * h + sc.localbkg_width > ny - 0.5}
+            if sum(out.values()) == 1:
+                sides.add([k for k, v in out.items() if v][0])
+        for sd in sorted(sides):
+            sc.axes.append('2_localbkg_annulus_leaves_frame_only_' + sd)
+
+
 def build_detection_scene(rng, sc):
     """Detection image for the same segmentation map: different pixels, possibly different mask / NaNs."""
     det = sc.copy()
@@ -293,6 +445,14 @@ def build_detection_scene(rng, sc):
         det.info['det_magnitude'] = mag
     det.layout = {k: v for k, v in sc.layout.items() if k in ('seg', 'seg_dtype', 'mask')}
     det.axes = []
+    det.provenance = {k: v for k, v in sc.provenance.items() if k == 'segm'}
+    if rng.random() < 0.4:
+        # the detection catalogue handed in is itself an indexed (identity-ordered) child, possibly of a parent
+        # that had properties cached before it was indexed
+        pre = [('centroid',), ('kron_radius', 'area'), (), ('semimajor_sigma', 'bbox', 'kron_aperture')][int(rng.integers(0, 4))]
+        det.provenance['as_child'] = {'how': ['slice', 'list', 'bool', 'get_labels'][int(rng.integers(0, 4))],
+                                      'pre_read': list(pre)}
+        det.info['detcat_is_indexed_child'] = det.provenance['as_child']['how']
     return det
 
 
@@ -532,8 +692,19 @@ def check_against_reference(case, sc, det_sc, cat, rowlabels, mech, props=None, 
         alt[flag] = np.nan
         return cands + [('nan_permitted', alt)]
 
+    dtype_mech = {k: str(getattr(sc, a).dtype) if not str(sc.layout.get(a, '')).startswith('dtype:')
+                  else sc.layout[a][6:] for k, a in (('error_dtype', 'error'), ('background_dtype', 'background'))
+                  if getattr(sc, a) is not None}
     for name in order:
-        v, vs = obs.get(name)
+        try:
+            v, vs = obs.get(name)
+        except Exception as exc:  # noqa: BLE001
+            loc = core.exc_location(exc)
+            if loc is None:
+                raise
+            case.check(False, 'property_raised', dict(mech, prop=name, exc=type(exc).__name__, at=loc, **dtype_mech),
+                       msg=str(exc)[:200])
+            continue
         # ---------------- exact integer-like / object properties ----------------
         if name in ('label', 'labels'):
             a = np.atleast_1d(np.asarray(v))
@@ -592,7 +763,8 @@ def check_against_reference(case, sc, det_sc, cat, rowlabels, mech, props=None, 
             rc.numeric(name, o, ou, [('definition', e)], fs, unit, extra_mech=extra)
         elif name == 'segment_fluxerr':
             rc.numeric(name, o, ou, [('definition', [r['ph']['segment_fluxerr'] for r in rows])],
-                       [r['ph']['err_scale'] for r in rows], unit)
+                       [r['ph']['err_scale'] for r in rows], unit,
+                       extra_mech=_narrow_mech(sc, 'error', rows, o, lambda a: np.sqrt(np.sum(a ** 2))))
         elif name in ('min_value', 'max_value'):
             e = np.array([r['ph'][name] for r in rows])
             e = np.where(np.isnan(lb), np.nan, e)
@@ -609,10 +781,12 @@ def check_against_reference(case, sc, det_sc, cat, rowlabels, mech, props=None, 
             rc.numeric(name, o, ou, [('definition', e)], 0.0, None)
         elif name == 'background_sum':
             rc.numeric(name, o, ou, [('definition', [r['ph']['background_sum'] for r in rows])],
-                       [r['ph']['bkg_scale'] for r in rows], unit)
+                       [r['ph']['bkg_scale'] for r in rows], unit,
+                       extra_mech=_narrow_mech(sc, 'background', rows, o, np.sum))
         elif name == 'background_mean':
             rc.numeric(name, o, ou, [('definition', [r['ph']['background_mean'] for r in rows])],
-                       [r['ph']['bkg_scale'] / max(r['ph']['ngood'], 1) for r in rows], unit)
+                       [r['ph']['bkg_scale'] / max(r['ph']['ngood'], 1) for r in rows], unit,
+                       extra_mech=_narrow_mech(sc, 'background', rows, o, np.mean))
         elif name == 'background_centroid':
             _check_bkg_centroid(case, rc, o, ou, sc, rows, unit, tie_rows=cnf)
         elif name == 'local_background':
@@ -683,6 +857,27 @@ def check_against_reference(case, sc, det_sc, cat, rowlabels, mech, props=None, 
         else:
             raise RuntimeError('unhandled property ' + name)
     return rows, obs
+
+
+def _narrow_mech(sc, arrname, rows, obs, fn):
+    """Structural facts for the mechanism key when an input array is a narrow float: its dtype, and whether the
+    observed value equals the same reduction accumulated in that narrow dtype (never used for the verdict)."""
+    tag = str(sc.layout.get(arrname, ''))
+    if not tag.startswith('dtype:float'):
+        return None
+    dt = np.dtype(tag[6:])
+    arr = getattr(sc, arrname).astype(dt)
+    same = True
+    with np.errstate(all='ignore'):
+        for i, r in enumerate(rows):
+            gy, gx = r['ph']['good_yx']
+            if len(gy) == 0:
+                continue
+            em = float(fn(arr[gy, gx]))
+            ob = float(obs[i])
+            if not ((np.isnan(em) and np.isnan(ob)) or em == ob or abs(em - ob) <= 1e-12 * abs(em)):
+                same = False
+    return {arrname + '_dtype': dt.name, 'equals_accumulation_in_input_dtype': bool(same)}
 
 
 def _check_cutouts(case, name, o, sc, own, rows, mech, unit):
@@ -972,9 +1167,12 @@ def relation_renumber(case, sc, det_sc, mech, with_kron):
     labels = [int(x) for x in sc.labels]
     n = len(labels)
     via_api = rng.random() < 0.5
-    pool = np.arange(1, max(50, 4 * n))
+    limit = sc.info.get('label_limit')
+    top = max(50, 4 * n) if limit is None else min(max(50, 4 * n), limit + 1)
+    pool = np.arange(1, top)
     if via_api:
-        pool = np.setdiff1d(np.arange(1, max(labels) + max(50, 4 * n)), labels)   # unused numbers only
+        top = max(labels) + max(50, 4 * n) if limit is None else limit + 1
+        pool = np.setdiff1d(np.arange(1, top), labels)                              # unused numbers only
     new = [int(x) for x in rng.choice(pool, size=n, replace=False)]
     if n > 1 and sorted(new) == [new[i] for i in np.argsort(labels)]:
         new = new[::-1]
@@ -984,11 +1182,13 @@ def relation_renumber(case, sc, det_sc, mech, with_kron):
     sc2 = sc.copy()
     sc2.seg = lut[sc.seg]
     sc2.labels = np.sort(np.array(new))
+    sc2.provenance = {k: v for k, v in sc.provenance.items() if k != 'segm'}
     det2 = None
     if det_sc is not None:
         det2 = det_sc.copy()
         det2.seg = sc2.seg.copy()
         det2.labels = sc2.labels
+        det2.provenance = {k: v for k, v in det_sc.provenance.items() if k != 'segm'}
     c1 = gen.make_catalog(sc, gen.make_catalog(det_sc) if det_sc is not None else None)
     segm2 = None
     if via_api:
